@@ -276,6 +276,32 @@ def d4_loss_latch(ctx):
     ctx.chk.ob("D4", "the 4 s clock restarts whenever ewma <= 0.55", ok, "", key="D4:sustain-clock-reset")
     for n, v in (("LOSS_DEGRADE_ENTER", 0.55), ("LOSS_DEGRADE_CLEAR", 0.25), ("LOSS_DEGRADE_SUSTAIN_MS", 4000)):
         ctx.CONST("D4", K + n, v)
+    # "the loss average" is an average: every update stamps its time (on every path, so that the first-sample snap happens once),
+    # the snap to the instantaneous loss happens only while no update has been stamped, and every other store moves the average
+    # towards the sample by a fraction `1 - exp(-dt / tau)`
+    cfg = ctx.cfg(fn)
+    fa = pa.fa
+    stamps = [(bb, si) for (bb, si, s_) in field_stores(fn, LCS, "loss_ewma_last_ms") if fa.val_rvalue(s_["rv"], (bb, si)) == ("param", 3)]
+    ok = bool(stamps) and not cfg.returns_reachable_avoiding(set(bb for (bb, si) in stamps))
+    ctx.chk.ob("D4", "every update of the loss average stamps its time, on every path", ok, "%d stamp site(s)" % len(stamps), key="D4:ewma-stamped-every-update")
+    first = pa.lit(("bin", "Eq", ("const", 0, "u64"), ("field", ("param", 1), LCS, "loss_ewma_last_ms"), "u64"))
+    nsnap = nmove = 0
+    for (bb, si, s_) in field_stores(fn, LCS, "loss_ewma"):
+        v = strip_old(fa.val_rvalue(s_["rv"], (bb, si)))
+        pc = pa.pc_at(bb, si)
+        reads_avg = any(is_field(x, "loss_ewma", LCS) for x in walk(v))
+        if not reads_avg:
+            nsnap += 1
+            okv = is_call(v, name_contains="clamp") and v[2][1] == ("const", 0.0, "f64") and v[2][2] == ("const", 1.0, "f64") and pa.entails(pc, first)
+            ctx.chk.ob("D4", "the average is set to the instantaneous loss (clamped to [0, 1]) only by the very first update", okv, "PC = %s ; value %s" % (pa.show(pc)[:120], show(v, fn.names)[:100]),
+                       key="D4:ewma-snap-only-first", loc=s_.get("loc"))
+        else:
+            nmove += 1
+            ex = [x for x in walk(v) if is_call(x, name_contains="f64") and x[1].endswith("::exp")]
+            okv = v[0] == "bin" and v[1] == "Add" and len(ex) == 1 and pa.entails(pc, b.NOT(first))
+            ctx.chk.ob("D4", "any other store moves the average by (sample - average) * (1 - exp(-dt/tau))", okv, "value %s" % show(v, fn.names)[:160], key="D4:ewma-moves-by-fraction", loc=s_.get("loc"))
+    ctx.chk.floor("D4", "first-sample stores of the loss average", nsnap, 1)
+    ctx.chk.floor("D4", "smoothing stores of the loss average", nmove, 1)
 
 
 def d5_gc_and_copy(ctx):
